@@ -44,6 +44,19 @@ func mkProg(name, items string) prog {
 	for _, h := range c.hookOr {
 		p.units = append(p.units, fmt.Sprintf("h%d", h))
 	}
+	for _, k := range c.conns {
+		n := k.par
+		if n == 0 {
+			n = int(c.opt["dpar"])
+		}
+		if n < 2 {
+			p.units = append(p.units, fmt.Sprintf("k%d.1.1", k.cid))
+		} else {
+			for i := 1; i <= n; i++ {
+				p.units = append(p.units, fmt.Sprintf("k%d.%d.%d", k.cid, i, n))
+			}
+		}
+	}
 	for _, z := range c.scheds {
 		p.sched = append(p.sched, fmt.Sprintf("c%d", z.fid))
 	}
@@ -93,6 +106,21 @@ var programs = []prog{
 	mkProg("backoff-adapter-timeouts", "S:1:R,1,2:2:0:0:0 S:2:R,1,3:3:0:0:0 H:5:0 O:bo=50,dl=1"),
 	mkProg("lagged", "S:1:R,1,2:2:0:0:30 S:2:R,1,3:3:0:0:0 H:5:0"),
 	mkProg("lagged2", "S:1:R,1,2:2:0:0:30 S:2:R,1,3:3:0:0:40 O:inst=2"),
+	// connectors (connector.go): one consumer failing its first invocation per event; two shards + a second connector with three
+	mkProg("connector", "S:1:R,1,2:2:0:0:0 S:2:R,1,3:3:0:0:0 K:1:1:0"),
+	mkProg("connector-sharded", "S:1:R,1,2:2:0:0:0 K:1:1:2 K:2:0:3"),
+}
+
+// connector events for the connectors of a program: IDs chosen so that the hashed event IDs fall into different shards
+func connEvents(pr prog, n int) []string {
+	var ops []string
+	c := parseCfg(strings.Fields(pr.items))
+	for _, k := range c.conns {
+		for i := 0; i < n; i++ {
+			ops = append(ops, fmt.Sprintf("cs:%d:%s:%d", k.cid, hx(fmt.Sprintf("ext-%d-%d", k.cid, i)), 1+i%3))
+		}
+	}
+	return ops
 }
 
 var ctlPrograms = []prog{
@@ -240,6 +268,8 @@ func genEngine(p *params, emit func(string, bool)) {
 		genStaleReads(p, emit)
 	case "C09":
 		genTriggers(p, emit)
+	case "C10":
+		genConnectors(p, emit)
 	case "C12":
 		genTimeouts(p, emit)
 	case "C13":
@@ -258,6 +288,47 @@ func genEngine(p *params, emit func(string, bool)) {
 	_ = r
 }
 
+// connector consumers under shards, faults, crashes and rewinds: every connector event ends up handled by exactly one shard
+func genConnectors(p *params, emit func(string, bool)) {
+	r := p.rng
+	progs := []prog{
+		mkProg("conn-one", "S:1:R,1,2:2:0:0:0 K:1:0:0"),
+		mkProg("conn-two-shards", "S:1:R,1,2:2:0:0:0 K:1:1:2"),
+		mkProg("conn-three-shards", "S:1:R,1,2:2:0:0:0 K:1:0:3 K:2:2:0"),
+		mkProg("conn-default-count", "S:1:R,1,2:2:0:0:0 K:1:1:0 O:dpar=2"),
+		mkProg("conn-two-instances", "S:1:R,1,2:2:0:0:0 K:1:1:2 O:inst=2"),
+	}
+	for _, pr := range progs {
+		c := parseCfg(strings.Fields(pr.items))
+		for i := 0; i < p.pick(40, 1200); i++ {
+			var ops []string
+			nev := 0
+			for j := 0; j < 6+r.Intn(14); j++ {
+				switch r.Intn(6) {
+				case 0, 1:
+					k := c.conns[r.Intn(len(c.conns))]
+					ops = append(ops, fmt.Sprintf("cs:%d:%s:%d", k.cid, hx(randString(r, 1+r.Intn(10))+fmt.Sprint(nev)), 1+r.Intn(3)))
+					nev++
+				case 2:
+					if r.Intn(3) == 0 {
+						ops = append(ops, fmt.Sprintf("crash:%d", 1+r.Intn(pr.insts())))
+					} else {
+						u := pr.units[r.Intn(len(pr.units))]
+						if u[0] == 'k' {
+							ops = append(ops, fmt.Sprintf("rw:%s:%d", u, r.Intn(4)))
+						}
+					}
+				default:
+					ops = append(ops, permuteRounds(r, pr, 1)...)
+				}
+			}
+			ops = randomFaultRun(r, pr, ops, r.Intn(3))
+			ops = append(ops, pr.rounds(6)...)
+			emit(scenario(pr, ops), true)
+		}
+	}
+}
+
 // fault-free runs, every single fault position (x kind), random multi-fault runs
 func genFaults(p *params, emit func(string, bool), frac float64) {
 	r := p.rng
@@ -270,6 +341,15 @@ func genFaults(p *params, emit func(string, bool), frac float64) {
 		case "timeout":
 			base = append(base, pr.rounds(4)...)
 			base = append(base, adv(100))
+		case "two-timeouts":
+			base = append(base, pr.rounds(4)...)
+			base = append(base, adv(100))
+			base = append(base, pr.rounds(2)...)
+			base = append(base, adv(150))
+		case "connector", "connector-sharded":
+			base = append(base, connEvents(pr, 3)...)
+			base = append(base, pr.rounds(2)...)
+			base = append(base, connEvents(pr, 5)[3:]...)
 		case "backoff":
 			base = append(base, pr.rounds(3)...)
 			base = append(base, adv(50))
